@@ -95,7 +95,8 @@ class Shapes:
         m = re.match(r'^base_array<(.*)>$', s)
         if m:
             el = self.of(m.group(1))
-            return ('struct', 'dsplib::base_array', (('_vec', ('vec', el)),))
+            en = {'real': 'double', 'int': 'int'}.get(el[0], 'dsplib::cmplx_t')
+            return ('struct', 'dsplib::base_array<%s>' % en, (('_vec', ('vec', el)),))
         m = re.match(r'^(?:std::)?pair<(.*)>$', s)
         if m:
             a = split_targs(m.group(1))
